@@ -40,6 +40,10 @@ CHECKS = {
    text="reference oracles independent of grass over boundary-seeking doubles: literals must parse to the nearest double (exact bits through the probe); + - * math.div and unary minus bit-exact vs IEEE arithmetic on the observed operand values, % vs the Sass rule; three-valued 1e-11 tolerance oracle for == != < <= > >=, round/ceil/floor/abs and integer acceptance in nth()/@for; sass:math vs Python math; every value printed in both styles and compared with the correctly rounded 10-digit decimal (decimal module), notation rules and re-reading",
    note="tolerance oracle is three-valued near the 1e-11 boundary; both double-precision realisations of Sass modulo are accepted; half-up and half-even accepted on exact decimal ties",
    technique="runtime monitoring: reference-model oracles (IEEE/decimal/libm) over probe-observed f64 bit patterns and printed text"),
+ "C16": dict(engine="vw+vp",
+   text="reference-evaluator monitor: random calculation trees (depth <= 4, + - * /, px/in/cm/em/rem/%/vw/deg/turn/s/ms/unitless, negatives, nested calc/min/max/clamp, variables or interpolation as operands, both styles) are compiled; an independent evaluator computes the quantity of the source AST and of the emitted text (own tokenizer/parser: precedence, parentheses, signs) under 8 random unit environments and the two must agree; outputs must be a plain number iff all operands are mutually convertible; provably incompatible operands must be rejected; panics refute",
+   note="tolerance 2e-6 relative (emitted numbers carry 10 digits); `%` is treated as possibly compatible with anything; one known finding (clamp with MIN > MAX, mirrors dart-sass) is matched only when the expression contains such a clamp",
+   technique="runtime monitoring: reference-model (independent calc evaluator) oracle over compiled outputs under randomised unit environments"),
 }
 
 ALL = ["C%02d" % i for i in range(1, 21)]
